@@ -474,6 +474,7 @@ func load(text string) (cfg *config.Config, err error, panicked interface{}) {
 	defer os.Remove(p)
 	defer func() {
 		if r := recover(); r != nil {
+			core.HarnessPanic(r)
 			panicked = r
 		}
 	}()
